@@ -418,6 +418,14 @@ fn exec(ctx: &Ctx, st: &mut State, toks: &[&str]) -> String {
             st.bind(w, r);
             out
         }
+        ["matmulat", a, ta, b, tb, c, i] => {
+            // one element of the product: the whole product is computed by the library, then indexed
+            let r = {
+                let cc = if *c == "-" { None } else { Some(st.get(c)) };
+                Array::matmul((st.get(a), parse_t(ta)), (st.get(b), parse_t(tb)), cc)
+            };
+            format!("s {}", ctx.render(r[parse_nats(i)]))
+        }
         ["convat", a, f, sr, sc, i] => {
             // one element of the convolution: the whole convolution is computed by the library, then indexed
             let r = st.get(a).conv(st.get(f), (sr.parse().unwrap(), sc.parse().unwrap()));
